@@ -24,9 +24,9 @@ type hProvider struct {
 	q        chan core.Ammo
 	acquired int
 	released int
-	runErr   error         // returned by Run (fault plan)
-	failAt   int           // Run fails after this many items were put (-1: never)
-	items    int           // items to deliver in Run mode
+	runErr   error // returned by Run (fault plan)
+	failAt   int   // Run fails after this many items were put (-1: never)
+	items    int   // items to deliver in Run mode
 	runDone  bool
 	failed   bool // Run actually returned runErr
 }
@@ -83,15 +83,17 @@ func (p *hProvider) Run(ctx context.Context, _ core.ProviderDeps) error {
 }
 
 type hAggregator struct {
-	mu        sync.Mutex
-	reports   int
-	discards  int
-	runErr    error // returned when Run ends (fault plan: e.g. dropped samples)
-	failEarly bool  // Run returns runErr immediately instead of at the end
-	runDone   bool
-	ctxDoneAt int // number of instance Run calls that had returned when ctx was cancelled (E6)
-	lateOK    *bool
-	lastTok   *int64
+	mu           sync.Mutex
+	reports      int
+	discards     int
+	runErr       error // returned when Run ends (fault plan: e.g. dropped samples)
+	failEarly    bool  // Run returns runErr immediately instead of at the end
+	runDone      bool
+	ctxDoneAt    int // number of instance Run calls that had returned when ctx was cancelled (E6)
+	lateOK       *bool
+	lastTok      *int64
+	callerCancel *bool
+	metrics      *Metrics // when set: E6 is checked at the moment the aggregator is cancelled
 }
 
 func (a *hAggregator) Report(s core.Sample) {
@@ -112,8 +114,17 @@ func (a *hAggregator) Run(ctx context.Context, _ core.AggregatorDeps) error {
 		return a.runErr
 	}
 	<-ctx.Done()
+	if a.metrics != nil {
+		// C05/E6, C06: the engine cancels the aggregator only after every instance it started has
+		// returned (otherwise samples of shots still in flight are lost)
+		vCheck("E6.aggregator.cancelled.only.after.instances.finished",
+			a.metrics.InstanceStart.Get() == a.metrics.InstanceFinish.Get() || a.parentCancelled())
+	}
 	return a.runErr
 }
+
+// parentCancelled: the harness marks a caller-initiated cancel (then everything stops at once).
+func (a *hAggregator) parentCancelled() bool { return a.callerCancel != nil && *a.callerCancel }
 
 type hGun struct {
 	mu      *sync.Mutex
